@@ -37,7 +37,7 @@ SaArms ==      \* number of branch arms carrying a semantic-after probe
     LET Arms(i) == IF C.plan[i].mode # "semantic_after" \/ C.plan[i].site < 0 THEN 0
                    ELSE LET c == C.orig[C.plan[i].site + 1] IN
                         IF c.o = "br_table" THEN Len(c.ds) + 1
-                        ELSE IF c.o \in {"br", "br_if"} THEN 1 ELSE 0
+                        ELSE IF c.o \in {"br", "br_if", "bron"} THEN 1 ELSE 0
         RECURSIVE Sum(_)
         Sum(i) == IF i > Len(C.plan) THEN 0 ELSE (IF C.plan[i].acc THEN Arms(i) ELSE 0) + Sum(i + 1)
     IN Sum(1)
@@ -131,7 +131,7 @@ NTargets(i) ==
     IF C.plan[i].site < 0 THEN 0
     ELSE LET c == C.orig[C.plan[i].site + 1] IN
          IF c.o = "br_table" THEN Cardinality({c.ds[x] : x \in DOMAIN c.ds} \cup {c.d})
-         ELSE IF c.o \in {"br", "br_if"} THEN 1 ELSE 0
+         ELSE IF c.o \in {"br", "br_if", "bron"} THEN 1 ELSE 0
 InLoop(i) == C.plan[i].site >= 0 /\
              \E x \in DOMAIN OpenKinds(C.orig, 1, C.plan[i].site + 1, <<>>) :
                  OpenKinds(C.orig, 1, C.plan[i].site + 1, <<>>)[x] = "loop"
